@@ -80,6 +80,8 @@ type Case struct {
 	Fast     bool          `json:"fast"`     // latencies are yields only (no sleeps): the small-scope enumeration
 	Sched    bool          `json:"sched"`    // run under testing/synctest with a PRNG-controlled scheduler
 	Thorough bool          `json:"thorough"` // generated with the thorough-tier size distribution
+	OneP     bool          `json:"onep"`     // run the call with GOMAXPROCS(1): a spawned goroutine starts only when its spawner blocks or yields,
+	// which opens the windows between eg.Go and the goroutine's first instruction (cancellation landing in between)
 	OwnLim   bool          `json:"ownlim"`   // CopyGraph through the verif hook with a limiter the harness created: its free permits are read at every event
 }
 
@@ -119,6 +121,7 @@ type rec struct {
 	limK     int
 	limProbe int    // events probed
 	limBad   string // first event at which more operations were in flight than permits taken
+	onep     bool   // Case.OneP
 }
 
 func (r *rec) node(d ocispec.Descriptor) int {
@@ -174,6 +177,13 @@ func (r *rec) delay() {
 	v := r.lat.Intn(12)
 	a := r.lat.Intn(64)
 	r.lmu.Unlock()
+	if r.onep {
+		// single-P schedules: mostly run on without yielding (a yield lets every spawned goroutine start)
+		if v >= 9 {
+			runtime.Gosched()
+		}
+		return
+	}
 	if r.fast && v >= 8 {
 		v = 4
 	}
@@ -705,7 +715,7 @@ func Execute(c *Case) *Result {
 			return nil
 		}
 	}
-	r := &rec{idx: map[dkeyT]int{}, lat: common.NewRand(c.Seed), fast: c.Fast, slow: c.Slow, seed: c.Seed, always: c.MountAlways}
+	r := &rec{idx: map[dkeyT]int{}, lat: common.NewRand(c.Seed), fast: c.Fast, slow: c.Slow, seed: c.Seed, always: c.MountAlways, onep: c.OneP}
 	for _, n := range g.Nodes {
 		if _, dup := r.idx[keyOf(n.Desc)]; dup {
 			res.SetupErr = fmt.Errorf("generator produced two nodes with the same descriptor (node %d)", n.ID)
@@ -839,6 +849,9 @@ func Execute(c *Case) *Result {
 			return res
 		}
 	} else {
+		if c.OneP {
+			defer runtime.GOMAXPROCS(runtime.GOMAXPROCS(1))
+		}
 		done := make(chan struct{})
 		go func() {
 			defer close(done)
